@@ -492,6 +492,10 @@ func (n *Net) send(ctx context.Context, addr string, req *tikvrpc.Request, timeo
 	if err != nil {
 		e.Err = err.Error()
 	}
+	if n.cl.RespLevelLocks && err == nil && resp != nil {
+		liftLockError(resp)
+		e.Resp = resp.Resp
+	}
 	switch action {
 	case "dropResponse":
 		e.Err = errDropped.Error()
@@ -533,6 +537,39 @@ type Cluster struct {
 	calls   int
 	runMu   sync.Mutex
 	runaway string
+	// RespLevelLocks makes the store report a lock met by BatchGet / Scan as a response-level error without
+	// pairs - the form TiKV uses for in-memory (async-commit prewrite) locks - instead of a per-pair error
+	RespLevelLocks bool
+}
+
+// liftLockError rewrites per-pair lock errors of a BatchGet / Scan response into the response-level form.
+func liftLockError(resp *tikvrpc.Response) {
+	switch r := resp.Resp.(type) {
+	case *kvrpcpb.BatchGetResponse:
+		if r.Error != nil || r.RegionError != nil {
+			return
+		}
+		for _, p := range r.Pairs {
+			if p.Error != nil && p.Error.Locked != nil {
+				c := *r
+				c.Error, c.Pairs = p.Error, nil
+				resp.Resp = &c
+				return
+			}
+		}
+	case *kvrpcpb.ScanResponse:
+		if r.Error != nil || r.RegionError != nil {
+			return
+		}
+		for _, p := range r.Pairs {
+			if p.Error != nil && p.Error.Locked != nil {
+				c := *r
+				c.Error, c.Pairs = p.Error, nil
+				resp.Resp = &c
+				return
+			}
+		}
+	}
 }
 
 func (cl *Cluster) noteRunaway(msg string) {
